@@ -33,6 +33,13 @@ def check(ctx, cfg):
     r4(ctx, cfg)
     r5(ctx, cfg)
     r6(ctx, cfg)
+    r_overlay(ctx, cfg)
+
+
+def r_overlay(ctx, cfg):
+    """premise shared with C06 (the transaction overlay is faithful), under this property's id: a sub-message's effects are kept or dropped as one by committing or dropping an overlay of this kind; what the next sibling and the reply handler see is read through it"""
+    from rules import C06
+    C06.overlay_premise(ctx, cfg, "C02.R7")
 
 
 def r6(ctx, cfg, R="C02.R6"):
